@@ -2339,7 +2339,8 @@ KERNELS = [
         # a panic is "does not compile" = Err, the emitted `Decimal::new_raw(#coeff, #n_frac_digits)` is the Ok value
         (r"pub fn Dec\(input: TokenStream\) -> TokenStream \{", "pub fn Dec(src: &str) -> Result<(i128, u8), ParseDecimalError> {"),
         (r"let mut src = input\.to_string\(\);", ""),
-        (r"if src\.starts_with\(\"- \"\) \|\| src\.starts_with\(\"\+ \"\) \{\s*src\.remove\(1\);\s*\}", ""),
+        (r"if src\.starts_with\('-'\) \|\| src\.starts_with\('\+'\) \{\s*let n_ws = src\[1\.\.\]\.len\(\) - src\[1\.\.\]\.trim_start\(\)\.len\(\);\s*"
+         r"src\.replace_range\(1\.\.1 \+ n_ws, \"\"\);\s*\}", ""),
         (r"Err\(e\) => panic!\(\"\{\}\", e\),", "Err(e) => Err(e),"),
         (r"panic!\(\"\{\}\", (ParseDecimalError::\w+)\);?", r"return Err(\1);"),
         (r"None => return Err\((ParseDecimalError::\w+)\);,", r"None => { return Err(\1); }"),
